@@ -6,10 +6,16 @@
 (* Every atomic location l has a modification order hist[l], a sequence of *)
 (* messages [val, view]; a timestamp is an index into it.  Every thread t  *)
 (* has a view tv[t]: the lowest timestamp per location it may still read.  *)
-(* scv is the view shared by all SeqCst operations (each SeqCst operation  *)
-(* behaves as: join the global SC view, perform, publish own view to it -  *)
-(* i.e. as an SC fence on both sides, which is at least as strong as what  *)
-(* C11/Rust give SeqCst accesses).                                         *)
+(* scv[l] is the timestamp of the latest SeqCst write (store or RMW) to l  *)
+(* in execution order.  A SeqCst load is an acquire load that may not read *)
+(* anything older than scv[l]; a SeqCst store/RMW is a release(-acquire)   *)
+(* write that advances scv[l].  The order in which the model executes the  *)
+(* SeqCst operations is the total order S of C11: a SeqCst load reads the  *)
+(* last SeqCst write before it in S or a later write, never an earlier     *)
+(* one.  Note that a SeqCst ACCESS is not a fence: it does not publish the *)
+(* thread's view of other locations to later SeqCst operations (RC11), so  *)
+(* mixing SeqCst with weaker orderings on a Dekker-style pair is unsafe    *)
+(* here exactly as it is in C11.                                           *)
 (*                                                                         *)
 (* Soundness direction: every behaviour this module admits is allowed by   *)
 (* the C11/Rust model (stores always append to the modification order,     *)
@@ -61,10 +67,13 @@ MemReset ==
     /\ cver' = [c \in Cells |-> [w |-> 0, r |-> [t \in MThreads |-> 0]]]
     /\ race' = FALSE
 
-Base(t, ord) == IF ord = "SeqCst" THEN Join(tv[t], scv) ELSE tv[t]
+Base(t, ord) == tv[t]
+
+Max(a, b) == IF a >= b THEN a ELSE b
 
 \* Timestamps a load of l by t with ordering ord may read.
-ReadTs(t, l, ord) == Base(t, ord)[l] .. Len(hist[l])
+ReadTs(t, l, ord) ==
+    (IF ord = "SeqCst" THEN Max(tv[t][l], scv[l]) ELSE tv[t][l]) .. Len(hist[l])
 
 ValAt(l, ts) == hist[l][ts].val
 Latest(l) == hist[l][Len(hist[l])].val
@@ -77,8 +86,7 @@ AfterRead(t, l, ord, ts) ==
 MRead(t, l, ord, ts) ==
     /\ ts \in ReadTs(t, l, ord)
     /\ tv' = [tv EXCEPT ![t] = AfterRead(t, l, ord, ts)]
-    /\ scv' = IF ord = "SeqCst" THEN Join(scv, AfterRead(t, l, ord, ts)) ELSE scv
-    /\ UNCHANGED <<hist, cver, race>>
+    /\ UNCHANGED <<hist, scv, cver, race>>
 
 \* A read-modify-write: reads the latest message, appends a new one that
 \* continues the release sequence of the message it read.
@@ -91,7 +99,7 @@ MRmw(t, l, ord, newval) ==
                               ELSE [prev.view EXCEPT ![l] = n + 1]
     IN  /\ hist' = [hist EXCEPT ![l] = Append(@, [val |-> newval, view |-> mv])]
         /\ tv' = [tv EXCEPT ![t] = b1]
-        /\ scv' = IF ord = "SeqCst" THEN Join(scv, b1) ELSE scv
+        /\ scv' = IF ord = "SeqCst" THEN [scv EXCEPT ![l] = n + 1] ELSE scv
         /\ UNCHANGED <<cver, race>>
 
 \* A plain store: appended to the modification order.
@@ -101,7 +109,7 @@ MStore(t, l, ord, v) ==
         mv == IF IsRel(ord) THEN b0 ELSE [ZeroView EXCEPT ![l] = n + 1]
     IN  /\ hist' = [hist EXCEPT ![l] = Append(@, [val |-> v, view |-> mv])]
         /\ tv' = [tv EXCEPT ![t] = b0]
-        /\ scv' = IF ord = "SeqCst" THEN Join(scv, b0) ELSE scv
+        /\ scv' = IF ord = "SeqCst" THEN [scv EXCEPT ![l] = n + 1] ELSE scv
         /\ UNCHANGED <<cver, race>>
 
 \* A write-like access (write, take, alloc, free) to a non-atomic cell: must be ordered after the
